@@ -208,6 +208,7 @@ def explore_b(S, T, chk, mode):
         # nd must count numbered messages only: wrap explore with a counting shim
         return _explore_counting(S, T, chk)
     stats = dict(states=0, transitions=0, violations=[], capped=False)
+    hung = 0
     for pieces in mode:
         b = BG.make_buffer(T)
         i = nd = 0
@@ -221,9 +222,14 @@ def explore_b(S, T, chk, mode):
             fails = chk(i, nd, len(p), d, b, exc)
             if fails:
                 stats["violations"].append((fails, list(done)))
+                if isinstance(exc, (BG.Hang, BG.Livelock)):
+                    hung += 1
                 break
             i += len(p)
             nd += chk.count(d)
+        if hung >= 3:
+            stats["capped"] = True
+            break  # every further schedule would burn the watchdog again
     return stats
 
 
